@@ -578,7 +578,7 @@ theorem readAt_window (f : WavFile) (a b : Int) (hs : 0 ≤ a) (hsn : a ≤ f.nf
     simp [h1', h2', h3']
 
 /-- the frame index of the time `t / den`, clamped into the file: `min(max(round(rate·t), 0), nframes)`
-(`readFramesAtTime` as repaired, commit 300c9d2) -/
+(`readFramesAtTime` as repaired, commit 3f424d1) -/
 def cidx (den : Nat) (f : WavFile) (t : Int) : Nat := clampSample (samplesIn den f.rate t) f.nframes
 
 /-- the bytes of the frames between the two clamped frame indices -/
@@ -587,7 +587,7 @@ def cwindow (den : Nat) (f : WavFile) (p : Int × Int) : List UInt8 :=
 
 /-- **reading a stretch returns the bytes of the samples between the two nearest sample indices of the file** —
 for EVERY pair of times, on or off the sample grid, negative, beyond the end, reversed (`e < s` reads nothing).
-No hypothesis: `readFramesAtTime` never raises (before the repair 300c9d2 a start index outside `0 … nframes` made
+No hypothesis: `readFramesAtTime` never raises (before the repair 3f424d1 a start index outside `0 … nframes` made
 `setpos` raise `wave.Error`). -/
 theorem read_window (den : Nat) (f : WavFile) (s e : Int) :
     readFramesAtTime f ⟨s, den⟩ ⟨e, den⟩ = .ok (cwindow den f (s, e)) := by
@@ -1635,7 +1635,7 @@ theorem extract_spec (den : Nat) (f : WavFile) (s e : Int) (h : ¬ (⟨e, den⟩
   rfl
 
 /-- **a reversed pair of times is rejected and nothing is written** (`ArgumentError` from `QueryWav.getFrames`,
-commit 0a07868; it used to write an empty file) -/
+commit 906b45b; it used to write an empty file) -/
 theorem extract_reversed (f : WavFile) (s e : QTime) (h : e < s) : extractSubwav f s e = .error .ArgumentError := by
   unfold extractSubwav QueryWav.getFrames
   simp only [Option.getD_some]
@@ -1863,7 +1863,7 @@ theorem split_frames (den : Nat) (f : WavFile) (g : Tg Int) (stem : String) (fla
   | _, _ :: _, [], h => by cases h
 
 /-- reading the audio of an entry never stops the loop: whatever the entry's times, `QueryWav.getFrames` returns the
-(clamped) window — before the repair 300c9d2 an entry that started outside the recording raised the `wave.Error` of
+(clamped) window — before the repair 3f424d1 an entry that started outside the recording raised the `wave.Error` of
 `setpos` after the files of the earlier entries had been written -/
 theorem split_entry_outside (den : Nat) (f : WavFile) (iv : Iv Int) (h : ¬ (⟨iv.e, den⟩ : QTime) < ⟨iv.s, den⟩) :
     QueryWav.getFrames f (some ⟨iv.s, den⟩) (some ⟨iv.e, den⟩) = .ok (cwindow den f (iv.s, iv.e)) := by
@@ -2149,7 +2149,7 @@ theorem nested_delete_counterexample :
 /-- **a time beyond the recording is not rejected when the interval holding it has another one nested inside**: the
 bounds check looks at the end of the interval that *starts* last.  As a keep list the outer interval is read up to the
 end of the recording (and the inner one a second time); as a delete list the reversed "gap" `(3.0, 0.5)` is read as an empty
-stretch (before the repair 300c9d2 `setpos` raised `wave.Error`) instead of the documented `ArgumentError`
+stretch (before the repair 3f424d1 `setpos` raised `wave.Error`) instead of the documented `ArgumentError`
 (`keepIntervals / deleteIntervals = [(0.25, 3.0), (0.5, 1.0)]` on a 2 s recording) -/
 theorem nested_out_of_range_counterexample :
     readFramesAtTimes 8 exFile 16 (some [(2, 24), (4, 8)]) [] none =
